@@ -802,6 +802,12 @@ def gen_common(P, A):
         o.append('Definition fastpath_%s_op : string := "%s".\n' % (branch, op))
         o.append('Definition fastpath_%s_table : list Z := %s.\n' % (
             branch, "POW10_POS_BITS" if tab == "POWER_OF_TEN_POSITIVE" else "POW10_NEG_BITS"))
+    # sizing of the duplicate-detection hash table: table_size = (count * NUM) / DEN, first size INIT (uniqueness.c)
+    hl = int_literals(A[("uniqueness.c", "edn_has_duplicates_hash")])
+    if len(hl) < 3:
+        raise TranslateError("edn_has_duplicates_hash: expected the load-factor and initial-size literals")
+    o.append("Definition hash_table_literals : list Z := %s.\n" % zlist(hl))
+    o.append("Definition HASH_LOAD_NUM : Z := %d.\nDefinition HASH_LOAD_DEN : Z := %d.\nDefinition HASH_INIT_SIZE : Z := %d.\n" % (hl[0], hl[1], hl[2]))
     # fast-path constants of parse_double_fast / parse_double_from_buffer
     o.append("Definition fastpath_literals : list Z := %s.\n" % zlist(
         sorted(set(int_literals(A[("number.c", "parse_double_fast")])))))
@@ -846,7 +852,8 @@ WANTED = [("edn.c", "edn_read_value"), ("simd.c", "edn_simd_skip_whitespace"),
           ("number.c", "is_made_of_eight_digits_fast"), ("number.c", "parse_eight_digits_unrolled"),
           ("number.c", "digit_value"), ("equality.c", "edn_value_hash_internal"),
           ("equality.c", "edn_value_hash"), ("reader.c", "hash_tag"),
-          ("number.c", "parse_double_fast"), ("character.c", "is_valid_single_char")]
+          ("number.c", "parse_double_fast"), ("character.c", "is_valid_single_char"),
+          ("uniqueness.c", "edn_has_duplicates_hash")]
 WANTED_EXP = [("string.c", "edn_parse_text_block_line"), ("string.c", "simd_scan_line_content")]
 OPTIONAL = {("simd.c", "edn_simd_find_newline_sse")}
 
